@@ -17,11 +17,11 @@ LEVEL = 'exploration'
 RULE = ('generated projects and real packages x {one root, several roots} x {with, without --project-name} x docformat; each '
         'is rendered by `python <shim> ...` (the real driver.main in a fresh process) under PYTHONHASHSEED in {0,1,2,3,random}, '
         'directory listing order in {normal, reverse, shuffled} (os.listdir/os.scandir/Path.iterdir reordered in the child), '
-        'and into a fresh vs. an already populated output directory; build time fixed by --buildtime or SOURCE_DATE_EPOCH. All '
+        'and into a fresh vs. an already populated output directory, under varied sidebar/theme/member-order options; build time fixed by --buildtime or SOURCE_DATE_EPOCH (0, 1, 86399, 2020, 2100) and required to be the one the pages carry. All '
         'output trees of one project must have one digest. Distinct: (project, configuration); non-trivial: project has >=2 '
         'modules.')
 ASSUME = ['the order of the roots on the command line is part of the input and is not varied', 'intersphinx is off; no --html-viewsource-base']
-DECIDING = {'runs': 60, 'configurations': 6, 'projects': 8, 'files_compared': 1000, 'multi_root_projects': 2, 'guessed_name_projects': 2}
+DECIDING = {'runs': 60, 'buildtime_checks': 60, 'configurations': 6, 'projects': 8, 'files_compared': 1000, 'multi_root_projects': 2, 'guessed_name_projects': 2}
 CPU_S = 1200
 SHIM = str(Path(__file__).resolve().parent.parent / 'ref' / 'run_pydoctor_shim.py')
 
@@ -58,16 +58,22 @@ def _digest_tree(d: str) -> Tuple[str, Dict[str, str]]:
     return h, files
 
 
-def _run(argv: List[str], outdir: str, hashseed: str, listing: str, epoch: bool) -> Tuple[int, str]:
+EPOCHS = [1577836800, 0, 86399, 4102444800, 1]
+
+
+def _run(argv: List[str], outdir: str, hashseed: str, listing: str, epoch: Any) -> Tuple[int, str]:
     env = {k: v for k, v in os.environ.items() if k not in ('PYTHONHASHSEED', 'SOURCE_DATE_EPOCH')}
     env['PYTHONHASHSEED'] = hashseed
     env['VF_LISTING'] = listing
     env['PYTHONPATH'] = core.repo_dir()
     env['PYTHONDONTWRITEBYTECODE'] = '1'
-    if epoch:
+    # epoch: False -> --buildtime; True -> the usual SOURCE_DATE_EPOCH; an int -> that SOURCE_DATE_EPOCH (0 is a valid one)
+    if epoch is True:
         env['SOURCE_DATE_EPOCH'] = '1577836800'
+    elif epoch is not False:
+        env['SOURCE_DATE_EPOCH'] = str(epoch)
     args = [core.PY, SHIM, '--html-output', outdir, '-q', '-q'] + argv
-    if not epoch:
+    if epoch is False:
         args += ['--buildtime=2020-01-01 00:00:00']
     p = subprocess.run(args, env=env, capture_output=True, text=True, timeout=600, cwd=tempfile.gettempdir())
     return p.returncode, (p.stderr or '')[-600:]
@@ -95,6 +101,17 @@ def _judge(res: core.Res, label: str, roots: List[str], extra: List[str], nconfi
                 continue
             h, files = _digest_tree(out)
             res.c('files_compared', len(files))
+            # the build time that was asked for is the one the pages carry
+            import datetime
+            ts = 1577836800 if (epoch is True or epoch is False) else int(epoch)
+            stamp = datetime.datetime.fromtimestamp(ts, datetime.timezone.utc).strftime('%Y-%m-%d %H:%M:%S')
+            try:
+                idx = open(os.path.join(out, 'index.html'), errors='replace').read()
+                res.c('buildtime_checks')
+                if stamp not in idx:
+                    res.v('C18:buildtime-not-the-requested-one', f'{label}: index.html does not carry the requested build time {stamp} (epoch setting {epoch!r})', config=[hs, listing, reuse], **w)
+            except OSError:
+                pass
             digests.setdefault(h, ((hs, listing, reuse), files))
             res.distinct(f'{label}|{hs}|{listing}|{reuse}')
         res.c('projects')
@@ -182,14 +199,16 @@ def run_case(case: Dict[str, Any]) -> core.Res:
         roots = [str(p) for p in project.write(spec, base, seed=('C18', case['seed'], case['k']))]
         named = case['part'] == 'G' and r.random() < .6
         extra = (['--project-name=proj'] if named else []) + [f'--privacy={p}' for p in spec.privacy] + \
-                [f"--docformat={r.choice(['epytext', 'epytext', 'restructuredtext', 'plaintext'])}"]
+                [f"--docformat={r.choice(['epytext', 'epytext', 'restructuredtext', 'plaintext'])}"] + \
+                r.choice([[], [], ['--sidebar-expand-depth=2'], ['--sidebar-expand-depth=3', '--sidebar-toc-depth=3'], ['--theme=readthedocs', '--sidebar-expand-depth=2'],
+                          ['--theme=base'], ['--no-sidebar'], ['--cls-member-order=source', '--mod-member-order=source', '--sidebar-expand-depth=4']])
         label = f"C18:{case['part']}:{case['seed']}:{case['k']}"
         if len(roots) > 1:
             res.c('multi_root_projects')
         if not named:
             res.c('guessed_name_projects')
         _judge(res, label, roots, extra, case['configs'], {'project': label, 'args': extra, 'sources': project.sources(spec, seed=('C18', case['seed'], case['k']))},
-               epoch=(case['k'] % 2 == 0))
+               epoch=(False if case['k'] % 3 == 1 else EPOCHS[(case['k'] // 3) % len(EPOCHS)]))
         res.sample({'project': label, 'roots': [os.path.basename(x) for x in roots], 'args': extra})
     finally:
         shutil.rmtree(base, ignore_errors=True)
